@@ -15,6 +15,8 @@
 (*        t = [ty |-> "raw", code] or [ty |-> "named", name]               *)
 (*   [ty |-> "type", name]          a TLV type on its own (one byte)       *)
 (*   [ty |-> "tlvs", v]             a raw TLV section                      *)
+(*   [ty |-> "raw", v]              not a value of the crate: one direct   *)
+(*        `io::Write::write` of v on the writer (any size), then `flush`   *)
 (***************************************************************************)
 EXTENDS Bytes
 
@@ -63,7 +65,7 @@ Encode(p) ==
       [] p.ty = "addr" -> RlOf(V2!EncodeAddresses(AddrFlat(p.a)))
       [] p.ty \in {"tlv", "pair"} -> EncodeTlv(KindCode(p.t), p.v)
       [] p.ty = "type" -> << << V2!TypeCode(p.name), 1 >> >>
-      [] p.ty = "tlvs" -> p.v
+      [] p.ty \in {"tlvs", "raw"} -> p.v
       [] OTHER -> << >>
 
 (* values whose 16-bit length cannot hold them are refused before anything is written *)
@@ -93,8 +95,15 @@ WritePieces(cur, pieces) ==
     ELSE WritePieces(RlCat(cur, Head(pieces)), Tail(pieces))
 
 (* `value.write_to(&mut writer)` on a writer holding `cur` *)
+(* `io::Write::write` looks only at the buffer: refused - even for an empty slice - once the
+   buffer is longer than WriterLimit, otherwise everything is appended whatever its size *)
+RawWrite(cur, v) ==
+    IF RlLen(cur) > WriterLimit THEN [ok |-> FALSE, bytes |-> cur, n |-> 0]
+    ELSE [ok |-> TRUE, bytes |-> RlCat(cur, v), n |-> RlLen(v)]
+
 WriteTo(cur, p) ==
-    IF Refused(p) THEN [ok |-> FALSE, bytes |-> cur, n |-> 0]
+    IF p.ty = "raw" THEN RawWrite(cur, p.v)
+    ELSE IF Refused(p) THEN [ok |-> FALSE, bytes |-> cur, n |-> 0]
     ELSE LET r == WritePieces(cur, Pieces(p))
          IN  [ok |-> r.ok, bytes |-> r.bytes, n |-> RlLen(Encode(p))]
 
